@@ -103,6 +103,23 @@ Proof.
 Qed.
 Print Assumptions C13_guarded_in_source.
 
+(* Concurrent dials do not interfere on Client state.  Source side (T1e write inventory, interprocedural
+   over the methods reachable from DialWithContext / DialAndSend / Send / Close / Reset): every write of
+   a Client field happens with c.mutex held exclusively — never under RLock, never unlocked; the dial and
+   sendSingleMsg paths read the fields under RLock and never take the mutex exclusively. *)
+Theorem C13_client_writes_locked_in_source : ob_client_writes_excl = true /\ ob_dial_frame = true.
+Proof. exact (conj ob_client_writes_excl_true ob_dial_frame_true). Qed.
+Print Assumptions C13_client_writes_locked_in_source.
+
+(* Model side (frame property): goroutines that obey the discipline and never take m exclusively
+   (dial programs) execute, under every schedule, no write to any object guarded by m: a dial reads
+   only state that no concurrent dial writes. *)
+Theorem C13_dial_frame : forall (prot : obj -> protection) (m : N) (p0 : pool) (sched : list nat),
+  (forall i, disc prot h0 (p0 i) = true) -> (forall i, no_excl m (p0 i) = true) ->
+  forall i e, In (i, e) (trace (run (init p0) sched)) -> writes_guarded prot m e = false.
+Proof. exact dial_frame. Qed.
+Print Assumptions C13_dial_frame.
+
 (* non-vacuity: with the sendMutex operations removed (only cmd's per-command lock left) two goroutines
    interleave NOOP a / NOOP b / MAIL a / MAIL b / RCPT a / RCPT b ... on the shared connection *)
 Theorem C13_without_lock_refuted :
@@ -133,3 +150,10 @@ Example C13_ex_with_lock_serial :
   check_stream two_bodies (conn_proj 0 (trace (run (init lock_pool) ([0; 1]%nat ++ alternating 16 14)))) = true
   /\ all_done (run (init lock_pool) ([0; 1]%nat ++ alternating 16 14)) 2 = true.
 Proof. exact with_lock_same_schedule_serial. Qed.
+Example C13_ex_dial_frame_hyps :
+  disc prot_dial h0 (dial_thread 1 1 2) = true /\ no_excl cfg_mutex (dial_thread 1 1 2) = true.
+Proof. split; vm_compute; reflexivity. Qed.
+(* a dial that caches something in a Client field while holding only the read lock is rejected *)
+Example C13_ex_write_under_rlock_rejected :
+  disc prot_dial h0 [RLock cfg_mutex; Acc cfg_obj R; Acc cfg_obj W; RUnlock cfg_mutex] = false.
+Proof. vm_compute. reflexivity. Qed.
